@@ -81,6 +81,42 @@ def main(tier, seed):
                 crashes.append('hover at every other offset of %r: %s' % (src, r))
             else:
                 chk.validated += 1
+        # rendering documentation: doc_text slices every comment token after its slashes (hover, completion)
+        from . import dock, syn
+        syn.load('dev', log=chk.log, need_oracle=False)
+        try:
+            dfound = []
+            for n in ((0, 1, 2, 3) if tier == 'quick' else (0, 1, 2, 3, 4, 5)):
+                res, complete = explore.explore(dock.factory, (n,), jobs=1)
+                chk.add_run('HasDocParts::doc_text on one comment token: kind symbolic, the slashes + %d symbolic bytes (valid UTF-8, no line break)' % n, res, complete, {'bytes_after_slashes': n},
+                            nontrivial_classes=lambda c: c.startswith('kept:COMMENT'))
+                dfound += res.violations
+        finally:
+            syn.W.cleanup()
+        seen_d = set()
+        for v in dfound:
+            com = v['cex'].get('comment')
+            if com is None or com in seen_d or len(seen_d) >= 3:
+                continue
+            seen_d.add(com)
+            doc = '///' + com.lstrip('/')
+            prog = '%s\nconst big = 42\nfn main() { big }\n' % doc
+            boff = lambda i: len(prog[:i].encode('utf-8'))          # byte offsets
+            r = oracle.ask('hover', json.dumps({'text': prog, 'offsets': [boff(prog.index('big')), boff(prog.rindex('big'))]}))
+            if not isinstance(r, dict) or 'hover' not in r:
+                chk.violation('doc-text', 'bounded', '%s; public API: hover on a constant documented with %r -> %s' % (v['why'][0][:300], doc, str(r)[:200]), {'program': prog}, confirmed=True)
+                if 'died' in str(r):
+                    oracle.close(); oracle = native.Oracle(native.build('oracle-ide'))
+            else:
+                chk.inconclusive.append('doc_text kernel: %s -- but hover on a constant documented with %r answers' % (v['why'][0][:300], doc))
+        if not dfound:
+            prog = '/// \u00a0doc \u3000é\nconst big = 42\nfn main() { big }\n'
+            boff = lambda i: len(prog[:i].encode('utf-8'))
+            r = oracle.ask('hover', json.dumps({'text': prog, 'offsets': [boff(prog.index('big')), boff(prog.rindex('big'))]}))
+            if isinstance(r, dict) and 'hover' in r and all(h for h in r['hover']):
+                chk.validated += 1
+            else:
+                chk.inconclusive.append('translator validation FAILED: the doc_text kernel finds no problem, but hover on %r -> %s' % (prog, str(r)[:200]))
         for src in ODD:
             r = oracle.ask('hover', json.dumps({'text': src, 'offsets': list(range(len(src) + 1))}))
             if not isinstance(r, dict) or 'hover' not in r:
@@ -144,6 +180,7 @@ def main(tier, seed):
     chk.assumptions += [
         'kernel claim: the fourth anchored mechanism only (the placeholder that keeps occurs-free unification finite): unify / try_unify_var / Collector::collect return without panic, unbounded recursion (call depth > 400) or an emptied table slot on every table of up to %d variables whose entries (Unknown, Int, List, Tuple, Function, Result with arbitrary, also self-referential, children) are chosen by the solver' % c09.BOUNDS[tier]['tables'],
         'side tables: InferCtx::infer_expr on case expressions with 1-2 subjects and 1-3 clause patterns built as arena data must leave a type entry for every pattern and expression (InferenceResult indexes these maps); alias expansion: make_ty_from_typeref over every alias graph of <= 2 (thorough 3) aliases must return (call depth <= 400)',
+        'documentation kernel: syntax::ast::HasDocParts::doc_text (the per-token closure, real MIR) on a comment token whose kind is symbolic and whose text is its slashes + <= 3 (thorough 5) symbolic bytes of valid UTF-8 without a line break: no panic, nothing but the bytes after the slashes is kept; findings replayed by hover on a documented constant',
         'native layer (executed, not a solver verdict): every import structure over 2 modules (4 modes per ordered pair, a module importing itself included: 256) and z3-chosen (quick: 2500 with a cycle) / all 262144 (thorough) structures over 3 modules; '
         'go-to-definition, references, highlight, hover, completion, prepare-rename at every identifier, diagnostics and semantic highlighting per file must answer without panic; plus hover at every offset of a corpus of lowering corner cases (tuple indices that do not fit usize)',
         'every other part of the property (all queries x all offsets x arbitrary broken workspaces) needs the salsa database and is outside the solver-decided claim',
